@@ -225,6 +225,11 @@ def multi_document(faults):
         lines += meas("m_strforid", longid="an_identifier_instead_of_a_string")
     if "badident" in f:
         lines += meas("1digit_first")
+    if "badident_later" in f:
+        # the invalid identifier stands on a later line than the tag of its element (the diagnostic names the token's line)
+        lines += meas("m_badident_later", extra=["ECU_ADDRESS 0x10", "REF_MEMORY_SEGMENT 9segment"])
+    if "longstr_later" in f:
+        lines += meas("m_idstr_later", extra=["ECU_ADDRESS 0x20", "DISPLAY_IDENTIFIER d1", "PHYS_UNIT unquoted_unit"])
     if "toonew_block" in f:
         lines.append('    /begin BLOB b1 "" 0x0 4')
         lines.append("    /end BLOB")
